@@ -188,7 +188,7 @@ PROPS = {
  "C20": dict(
     level_text="Lean 4 proof: (ring M1) with every other thread idle each operation completes within 5 own steps, consumers complete and receive the front element even while reservations are outstanding, whereas a publication behind a suspended reservation can never complete (tail cannot pass it) - the model-level witness of the movable-atomic finding; (lock ring M2) while a thread sits at the write point holding the flag nobody else ever acquires it - witness of the movable-full-sync finding - and with the flag free every operation completes in 5 own steps; zero-copy and Multi send_with_async suspend holding only a pool slot (model M8 asyncZc: every other action stays enabled). Tied to the code: scheduled runs with one send_with_async suspended until all other producers finish; the scheduler's stall verdict decides `never returns`.",
     level_note="Theorems about models M1/M2/M8; the two known findings (movable atomic, movable full-sync) are listed in known_findings.json; the retry-when-full loops of the crossbeam and arc channels wait by documented design and are outside the statement; log channel: send_with_async is todo!() upstream.",
-    lean=["C20", "C20_LockRing"],
+    lean=["C20", "C20_LockRing", "C20_Wake"],
     scenarios=[dict(bin="uni", args=[f"kind={k}", "sub=susp"], runs=100, model=False, model_name="(oracle only)", kinds=["blocked_by_suspended_send", "async_send_never_returned", "panic", "invented", "duplicate", "lost"]) for k in UNI_KINDS + MULTI1_KINDS],
     rule="producer 0 starts send_with_async and stays suspended until every other producer (plain sends; asynchronous ones too where the channel allocates before the await) has finished; stream tasks poll meanwhile; the Multi kinds with one listener or (half of the runs) two; every ring / lock / streams-manager hook is a yield point; NON-TRIVIAL if a stream parked and a wake call happened",
     trusted_base=TB_COMMON,
